@@ -149,12 +149,39 @@ def export_kwargs(tp: Dict[str, Any]) -> Dict[str, Any]:
     )
 
 
-def export(tp: Dict[str, Any], fn=None, **overrides):
+def override_dtypes(specs, meta, dtype_override):
+    """Replace the dtype of selected positional inputs (mixed-dtype variants of a registered program)."""
+    import jax
+    if not dtype_override:
+        return specs, meta
+    specs, meta = list(specs), list(meta)
+    for j, dt in dtype_override.items():
+        j = int(j)
+        if j >= len(meta):
+            continue
+        sh = meta[j][0]
+        meta[j] = (sh, np.dtype(dt))
+        specs[j] = jax.ShapeDtypeStruct(tuple(sh), np.dtype(dt))
+    return specs, meta
+
+
+def dtype_variants(tp: Dict[str, Any]) -> List[Dict[str, str]]:
+    """Mixed-dtype variants: one float input at a time given as int32 (only for testcases that fix shapes, not dtypes)."""
+    if tp.get("input_shapes") is None or tp.get("input_dtypes") or tp.get("input_params") or double(tp):
+        return []
+    shapes = tp.get("input_shapes") or []
+    if not (1 <= len(shapes) <= 3):
+        return []
+    return [{str(j): "int32"} for j in range(len(shapes))]
+
+
+def export(tp: Dict[str, Any], fn=None, dtype_override=None, **overrides):
     """to_onnx on the real implementation; returns ModelProto (raises what to_onnx raises)."""
     from jax2onnx import to_onnx
     if fn is None:
         fn = instantiate(tp)
     specs, _meta, _vals = input_meta(tp)
+    specs, _meta = override_dtypes(specs, _meta, dtype_override)
     kw = export_kwargs(tp)
     kw.update(overrides)
     return to_onnx(fn, specs, **kw)
@@ -185,6 +212,22 @@ def symbols(meta: Sequence[Tuple[Tuple[Any, ...], Any]]) -> List[str]:
 
 def bind_shape(sh: Tuple[Any, ...], binding: Dict[str, int]) -> Tuple[int, ...]:
     return tuple(binding[d] if isinstance(d, str) else int(d) for d in sh)
+
+
+def dtype_variant_job(arg) -> List[Any]:
+    """Worker job: (pid, override) pairs of the mixed-dtype stripe for this tier/seed."""
+    tier, seed = arg
+    import hashlib
+    out = []
+    for tp in params():
+        pid = tp["pid"]
+        if is_heavy(pid) or not (pid.startswith("primitives.jnp/") or pid.startswith("primitives.lax/") or pid.startswith("primitives.nn/")):
+            continue
+        if tier == "quick" and (int(hashlib.sha256(pid.encode()).hexdigest()[:6], 16) + seed) % 3 != 0:
+            continue
+        for ov in dtype_variants(tp):
+            out.append((pid, ov))
+    return out
 
 
 def pids_job(tier: str) -> List[str]:
